@@ -53,9 +53,35 @@ def mk_val(v):
     raise ValueError(v)
 
 
+DEEP_SHAPES = {
+    # heavy: every level costs many Python frames in the evaluator / the transpiler's visitors
+    "paren": lambda d, leaf: "(" * d + leaf + ")" * d,
+    "list": lambda d, leaf: "[" * d + leaf + "]" * d,
+    "tern": lambda d, leaf: "x > 0 ? (" * d + leaf + ") : 0" * d,
+    "call": lambda d, leaf: "size([" * d + leaf + "])" * d,
+    "index": lambda d, leaf: "[" * d + leaf + "]" * d + "[0]" * d,
+    "map": lambda d, leaf: "{'k': " * d + leaf + "}" * d + ".k" * d,
+    "macro": lambda d, leaf: "[1].map(v, " * d + leaf + ")" * d,
+    # light: a few frames per level (left-deep chains, prefix operators)
+    "neg": lambda d, leaf: "-" * d + "x",
+    "not": lambda d, leaf: "!" * d + "(x > 0)",
+    "chain": lambda d, leaf: " + ".join(["x"] * max(d, 1)),
+    "and": lambda d, leaf: " && ".join(["x == 2"] * max(d, 1)),
+    "or": lambda d, leaf: " || ".join(["x == 1"] * max(d, 1)),
+    "dots": lambda d, leaf: "x" + ".k" * d,
+}
+
+
+def deep_text(shape: str, depth: int, leaf: str = "x") -> str:
+    """CEL text of a `depth` times nested expression of the given shape (the variable is `x`)"""
+    return DEEP_SHAPES[shape](int(depth), leaf)
+
+
 def expr_text(e) -> str:
     """CEL text of an expression tree of the model's fragment, or the raw text of {"src": …}"""
     if isinstance(e, dict):
+        if "deep" in e:
+            return deep_text(*e["deep"])
         return e["src"]
     k = e[0]
     if k == "lit":
@@ -133,15 +159,20 @@ def exc_rich(ex) -> str:
     return "EXC " + type(ex).__name__ + ":" + HEX.sub("0x", str(ex.args[0]) if ex.args else "")[:120]
 
 
-def mk_functions(spec):
-    """host functions of a program: {"form": "dict"|"list", "fns": [[name, behaviour, param], ...]} -> the `functions=` argument.
-    Fresh function objects every time; `__name__` is the CEL name (that is what the list form is keyed by)."""
+def mk_functions(spec, hist=None, prog_index=None):
+    """host functions of a program: {"form": "dict"|"list", "fns": [[name, behaviour, param(, extra)], ...]} -> the `functions=` argument.
+    Fresh function objects every time; `__name__` is the CEL name (that is what the list form is keyed by).
+    Behaviour `reenter` (extra = {"mode": "nested"|"thread", "ops": sub-history, "pre": n}): a function that returns the
+    constant `param` like `const`, and while it is being called performs API operations of its own (see History.make_reenter)."""
     if not spec:
         return None
     from celpy import celtypes as ct
     fs = []
-    for name, beh, param in spec["fns"]:
-        if beh == "const":
+    for item in spec["fns"]:
+        name, beh, param = item[:3]
+        if beh == "reenter":
+            f = hist.make_reenter(param, item[3], prog_index)
+        elif beh == "const":
             def f(*a, _p=param):
                 return ct.IntType(_p)
         elif beh == "bytes":
@@ -169,14 +200,106 @@ class History:
     def __init__(self):
         self.envs, self.asts, self.progs = [], [], []
         self.decl_objs, self.bind_objs = {}, {}
+        self.nested = []        # observations of operations performed by `reenter` functions during the current step
 
     def step(self, op):
+        """[model_format, rich_format] — plus, as a third element, the observations [[sub-op index, model, rich], ...] of the
+        operations that `reenter` host functions performed while this operation was under way (only when there are any)"""
+        self.nested = []
         try:
-            return self._step(op)
+            res = self._step(op)
         except RecursionError:
-            return ["EXC RecursionError", "EXC RecursionError"]
+            res = ["EXC RecursionError", "EXC RecursionError"]
         except Exception as ex:  # noqa
-            return ["EXC " + type(ex).__name__, exc_rich(ex)]
+            res = ["EXC " + type(ex).__name__, exc_rich(ex)]
+        if self.nested:
+            res = [res[0], res[1], self.nested]
+            self.nested = []
+        return res
+
+    def make_reenter(self, param, extra, prog_index):
+        """A host function for the program that is about to become `self.progs[prog_index]`.  It returns IntType(param).
+        `extra["ops"]` is a self-contained sub-history (own History object: E, P, G, V — indices local to it), optionally
+        ending in ["VS", bindings] = evaluate the OUTER program itself (the one this function belongs to).  The first
+        `extra["pre"]` operations are performed right now (while the outer program is being built); the others when the
+        function is first called — i.e. in the middle of an evaluation of the outer program —, in this thread
+        (mode `nested`) or in another thread while this one waits (mode `thread`).  On later calls the last operation is
+        repeated if it is an evaluation.  While its own operations run, the function behaves like the plain constant."""
+        import threading
+        from celpy import celtypes as ct
+        sub = History()
+        ops = extra.get("ops") or []
+        pre = min(int(extra.get("pre", 0)), len(ops))
+        mode = extra.get("mode", "nested")
+        state = {"done": 0, "busy": False}
+        outer = self
+
+        def do(j, sink):
+            op = ops[j]
+            if op[0] == "VS":
+                try:
+                    o = outer._evaluate(prog_index, op[1])
+                except RecursionError:
+                    o = ["EXC RecursionError", "EXC RecursionError"]
+                except Exception as ex:  # noqa
+                    o = ["EXC " + type(ex).__name__, exc_rich(ex)]
+            else:
+                o = sub.step(op)
+            sink.append([j, o[0], o[1]])
+            state["done"] = max(state["done"], j + 1)
+
+        for j in range(pre):
+            if ops[j][0] != "VS":
+                do(j, self.nested)
+
+        def work(sink):
+            if state["done"] < len(ops):
+                todo = list(range(state["done"], len(ops)))
+            elif ops and ops[-1][0] in ("V", "VS"):
+                todo = [len(ops) - 1]
+            else:
+                todo = []
+            for j in todo:
+                do(j, sink)
+
+        def f(*a):
+            if state["busy"]:
+                return ct.IntType(param)
+            state["busy"] = True
+            sink = []
+            try:
+                if mode == "thread":
+                    t = threading.Thread(target=work, args=(sink,), daemon=True)
+                    t.start()
+                    t.join(60)
+                else:
+                    work(sink)
+            finally:
+                state["busy"] = False
+                outer.nested.extend(sink)
+            return ct.IntType(param)
+        return f
+
+    def _evaluate(self, pi, bspec):
+        """evaluate program `pi` with the bindings `bspec`; identical bindings = the same dict object, re-used, and checked
+        to be unmodified afterwards"""
+        from celpy.evaluation import CELEvalError
+        key = json.dumps(bspec)
+        if key not in self.bind_objs:
+            self.bind_objs[key] = {n: mk_val(v) for n, v in bspec}
+        b = self.bind_objs[key]
+        snap_keys = list(b.keys())
+        snap = [rich(x) for x in b.values()]
+        snap_ids = [id(x) for x in b.values()]
+        tail = ""
+        try:
+            v = self.progs[pi].evaluate(b)
+            res = [modelfmt(v), rich(v)]
+        except CELEvalError as ex:
+            res = ["err", exc_rich(ex)]
+        if list(b.keys()) != snap_keys or [rich(x) for x in b.values()] != snap or [id(x) for x in b.values()] != snap_ids:
+            tail = " !BINDINGS-MODIFIED"
+        return [res[0] + tail, res[1] + tail]
 
     def _step(self, op):
         import celpy
@@ -211,29 +334,14 @@ class History:
         if k == "G":
             if op[1] >= len(envs) or op[2] >= len(asts):
                 return ["nosuch", "nosuch"]
-            fns = mk_functions(op[3]) if len(op) > 3 else None
+            fns = mk_functions(op[3], self, len(progs)) if len(op) > 3 else None
             p = envs[op[1]].program(asts[op[2]], functions=fns) if fns is not None else envs[op[1]].program(asts[op[2]])
             progs.append(p)
             return ["done", "done"]
         if k == "V":
             if op[1] >= len(progs):
                 return ["nosuch", "nosuch"]
-            key = json.dumps(op[2])
-            if key not in self.bind_objs:
-                self.bind_objs[key] = {n: mk_val(v) for n, v in op[2]}
-            b = self.bind_objs[key]                 # identical bindings = the same dict object, re-used
-            snap_keys = list(b.keys())
-            snap = [rich(x) for x in b.values()]
-            snap_ids = [id(x) for x in b.values()]
-            tail = ""
-            try:
-                v = progs[op[1]].evaluate(b)
-                res = [modelfmt(v), rich(v)]
-            except CELEvalError as ex:
-                res = ["err", exc_rich(ex)]
-            if list(b.keys()) != snap_keys or [rich(x) for x in b.values()] != snap or [id(x) for x in b.values()] != snap_ids:
-                tail = " !BINDINGS-MODIFIED"
-            return [res[0] + tail, res[1] + tail]
+            return self._evaluate(op[1], op[2])
         return ["bad-op", "bad-op"]
 
 
@@ -357,11 +465,21 @@ def serve(jobs: int):
                     out.flush()
 
 
+def _one(job):
+    # same number of Python frames between `main` and `run_job` as in the forking server (main -> serve -> _child -> run_job):
+    # whether a deeply nested expression hits the recursion limit must not depend on which of the two ran it
+    return _one_inner(job)
+
+
+def _one_inner(job):
+    return run_job(job)
+
+
 def main(argv):
     if "--one" in argv:
         _setup()
         job = json.loads(sys.stdin.read())
-        print(json.dumps(run_job(job)))
+        print(json.dumps(_one(job)))
         return 0
     jobs = 8
     if "--jobs" in argv:
